@@ -56,7 +56,8 @@ before, R/F/RF with the only mention inside a def / call body raised NameError `
   named <%block>                 template body     ok   own scope, as a top-level def (by design); not generated
   named <%block>                 def / call        CompileException (not allowed there)
 
-  (7) F-C03-7: the callable is a closure, assigns `loop` (its own rewritten `for`) and reads it
+  (7) F-C03-7: the callable is a closure, assigns `loop` (its own rewritten `for`) and reads it - itself
+      (UnboundLocalError) or through a callable nested in it (NameError: free variable `loop`, F-C03-7b)
   (11)/(11b) F-C03-11: a <%def> / anonymous <%block> directly in a <%call> body (under its control lines) is
       written into `ccall` BESIDE body(), so it is no closure of the body: it has a LoopStack of its own
 Shapes of the classifier (`hazards`): closure-mixed = (7), loop-in-call-body-def = (11), plus loop-only-in-call-expr
@@ -81,7 +82,8 @@ DRIVER_OPS = ["ctl", "tgt"]
 LEAN_EXTRA_TARGETS = ["MakoModel.Codegen.Spec"]
 
 RULE = ("templates from the grammar of harness/c03_gen.py: control structures nested to depth 5 (if/elif*/else?, "
-        "for/else? over lists, strings, generators and iterators of length 0..4, while, try/except with bare, "
+        "for/else? over lists, strings, generators, iterators and LAZY generators whose every item is an evaluation point "
+        "(it can fail part way; `pulledcount()` tells how many items were produced) of length 0..4, while, try/except with bare, "
         "Exception, Boom, KeyError and tuple clauses - one or several per `% try` -, with), every `%` line with its own "
         "random margin before and after the `%`, 12 % of the if/elif/while/with/except lines continued after the "
         "keyword with backslash-newline, `% for` lines with trailing comments (with and without colons), empty and "
@@ -537,7 +539,7 @@ def hazards(body):
                     det = G.detected(n)
                     if det:
                         own_for_detected = True
-                    un = n[2][0] in ("gen", "iter")
+                    un = n[2][0] in ("gen", "iter", "tgen")
                     if n[2][0] != "str":
                         for e in n[2][1]:
                             check_len(e, unsized)
@@ -575,8 +577,9 @@ def hazards(body):
                     check_len(a, unsized)
 
         level(sbody, lp_unsized, False)
-        if outer_loop and own_for_detected and _mentions_outside_for(sbody):
-            # the closure assigns `loop` (its own mangled for) and reads it
+        if outer_loop and own_for_detected and _mentions_outside_for(sbody, deep=True):
+            # the closure assigns `loop` (its own mangled for) and reads it - itself (UnboundLocalError) or through
+            # a callable nested in it (NameError: free variable)
             hz.add("closure-mixed")
 
     # top-level defs are scopes of their own
@@ -708,7 +711,7 @@ def shrinks(tree):
                     yield variant(lambda b, i: b[i].__setitem__(4, None))
                 if n[2][0] != "str" and len(n[2][1]) > 1:
                     yield variant(lambda b, i: b[i][2].__setitem__(1, b[i][2][1][:1]))
-                if n[2][0] in ("gen", "iter", "str") and "unsized" not in "":
+                if n[2][0] in ("gen", "iter", "str", "tgen"):
                     yield variant(lambda b, i: b[i].__setitem__(2, ["list", [["lit", "p"]]]))
                 if n[5].get("cmt"):
                     yield variant(lambda b, i: b[i][5].__setitem__("cmt", None))
@@ -971,9 +974,10 @@ def tc_first_diff(a, b):
     return a, b
 
 
-def _mentions_outside_for(body):
+def _mentions_outside_for(body, deep=False):
     """`loop` referenced in a body at a place where it denotes a loop *enclosing* the body (not inside one of the
-    body's own `% for`s; a for's iterable is evaluated outside it)"""
+    body's own `% for`s; a for's iterable is evaluated outside it).  `deep`: also through the callables nested in
+    the body (they read the same variable)"""
     for n in body:
         k = n[0]
         if k == "expr" and G.ex_mentions_loop(n[1]):
@@ -982,11 +986,13 @@ def _mentions_outside_for(body):
             return True
         if k == "call" and G.ex_mentions_loop(n[1]):
             return True
+        if deep and k in ("def", "call", "block") and _mentions_outside_for(G.sub_bodies(n)[0], True):
+            return True
         if k == "for":
-            if G.iter_mentions_loop(n[2]) or (n[4] is not None and _mentions_outside_for(n[4])):
+            if G.iter_mentions_loop(n[2]) or (n[4] is not None and _mentions_outside_for(n[4], deep)):
                 return True
         elif k in ("if", "while", "try", "with"):
-            if any(G.header_loop_refs(n)) or any(_mentions_outside_for(b) for b in G.sub_bodies(n)):
+            if any(G.header_loop_refs(n)) or any(_mentions_outside_for(b, deep) for b in G.sub_bodies(n)):
                 return True
     return False
 
@@ -1121,6 +1127,13 @@ def quirk_trees():
              ["for", 1, ["list", [["lit", "p"], ["lit", "q"]]],
               [loop_i, ["call", ["call", 1, []],
                         [loop_i, ["for", 2, ["list", [["lit", "r"]]], [["expr", ["loop", "first"]]], None, _o(2)]]]],
+              None, _o(2)]],
+            # the read sits in a callable nested in the closure that has the loop of its own
+            [["def", 1, [], F(), [["text", "("], ["expr", ["callerbody"]], ["text", ")"]]],
+             ["for", 1, ["list", [["lit", "p"]]],
+              [loop_i, ["call", ["call", 1, []],
+                        [["call", ["call", 1, []], [loop_i]],
+                         ["for", 2, ["list", [["lit", "r"]]], [["expr", ["loop", "first"]]], None, _o(2)]]]],
               None, _o(2)]]],
         "loop-in-call-body-def": [
             [["def", 1, [], F(), [["text", "("], ["expr", ["callerbody"]], ["text", ")"]]],
@@ -1222,6 +1235,10 @@ def handwritten(ctx):
                                     "% endfor\n</%def>${w()}", {}, "01", None),
         ("loop-only-in-call-body", "<%def name=\"c()\">(${caller.body()})</%def>\\\n% for a in ['p', 'q']:\n"
                                    "<%call expr=\"c()\">${loop.index}</%call>\\\n% endfor\n", {}, "(0)(1)", None),
+        ("lazy-generator-raises", "% try:\n% for a in tgen(['a', 'b', 'c']):\n[${loop.index}:${a}] \\\n% endfor\n% except Boom:\n"
+                                  "caught\\\n% endtry\n", {"__k": 2}, "[0:a] [1:b] caught", None),
+        ("lazy-generator-break", "% for a in tgen(['a', 'b', 'c', 'd']):\n${loop.index}\\\n% if loop.index == 1:\n<% break %>\\\n"
+                                 "% endif\n% endfor\n${pulledcount()}", {}, "01<2>", None),
         ("loop-after-try", "% for a in [1, 2]:\n% try:\n% for b in [7, 8]:\n${loop.index}${boom()}\n% endfor\n% except Boom:\n"
                            "!${loop.index}\n% endtry\n% endfor\n", {"__k": 1}, "0\n1!0\n0\n1\n", None),
         ("modcode-only-suite", "% if x:\n<%! import os %>\\\n% endif\nok", {"x": 1}, "ok", None),
